@@ -37,10 +37,22 @@ const zzMaxPos = 1<<31 - 1
 
 // zzC16History: K add-operations (scoped or global, 1..2 codes each, arbitrary code strings, arbitrary ranges in
 // any order) followed by one query; the decision must equal the list-scan reference.
-func zzC16History(K int, allowTwo bool) {
+// code strings: opaque atoms (any string; the code may only compare them) or the property's finite alphabet
+var zzAlphabet = []string{"ALL", "IMM", "IMM01", "IMM02", "CTOR01", "CTOR", "CTOR02", "XYZ"}
+
+func zzCode(name string, finite bool) string {
+	if finite {
+		return nd.Enum(name, zzAlphabet...)
+	}
+	return nd.Atom(name)
+}
+
+func zzC16History(K int, allowTwo bool) { zzC16HistoryA(K, allowTwo, false) }
+
+func zzC16HistoryA(K int, allowTwo bool, finite bool) {
 	s := &IgnoreSet{}
 	expected := false
-	code := nd.Atom("q_code")
+	code := zzCode("q_code", finite)
 	pos := nd.Int("q_pos")
 	nd.Assume(0 <= pos)
 	nd.Assume(pos <= zzMaxPos)
@@ -57,8 +69,8 @@ func zzC16History(K int, allowTwo bool) {
 		if !allowTwo {
 			nd.Assume(!two)
 		}
-		c0 := nd.Atom(fmt.Sprintf("op%d_c0", i))
-		c1 := nd.Atom(fmt.Sprintf("op%d_c1", i))
+		c0 := zzCode(fmt.Sprintf("op%d_c0", i), finite)
+		c1 := zzCode(fmt.Sprintf("op%d_c1", i), finite)
 		start := nd.Int(fmt.Sprintf("op%d_start", i))
 		end := nd.Int(fmt.Sprintf("op%d_end", i))
 		// property precondition: ranges lie inside valid positions (token.NoPos = 0 is not a position)
@@ -91,6 +103,11 @@ func ZZC16History2() { zzC16History(2, true) }
 func ZZC16History3() { zzC16History(3, true) }
 func ZZC16History3One() { zzC16History(3, false) }
 func ZZC16History4One() { zzC16History(4, false) }
+
+// the same histories over the property's finite code alphabet (concrete spellings: code that looks INTO the strings,
+// e.g. prefix tests, is executed instead of being refused as with opaque atoms)
+func ZZC16Alphabet3() { zzC16HistoryA(3, false, true) }
+func ZZC16Alphabet2Two() { zzC16HistoryA(2, true, true) }
 
 // zzC16Empty: an uninitialised, an empty-but-initialised and a nil collection never suppress.
 func ZZC16Empty() {
